@@ -343,6 +343,15 @@ pub fn gen_cases(profile: &str, seed: u64, b: &Budget) -> Vec<Case> {
                     }
                 }
             }
+            "c01" | "c15" if idx % 30 == 10 => {
+                // the same, at the block sizes where the default predictor is actually chosen and with the
+                // level right at the edge of the 32-bit window: one big mono frame
+                bps = if idx % 60 == 10 { 24 } else { 20 };
+                family = "dcedge".to_string();
+                bs = [4096, 2048, 3072, 4096][(idx / 30) % 4];
+                cfg = Cfg { block_size: bs, ..Cfg::default() };
+                mode = if idx % 90 == 10 { Mode::Mt(2) } else { Mode::St };
+            }
             "c01" | "c15" | "c02" | "c08" if idx % 6 == 4 => {
                 // threshold-directed for the i32 / i64 residual paths: DC + noise at 20/24 bit with the
                 // default predictor (order 10, precision 15), where sum|coef| ~ 2^shift
@@ -371,6 +380,10 @@ pub fn gen_cases(profile: &str, seed: u64, b: &Budget) -> Vec<Case> {
         }
         let mut n = gen::length(&mut rng, bs, b.max_frames);
         let mut ch = ch;
+        if family == "dcedge" {
+            ch = 1;
+            n = bs + idx % 7;
+        }
         if long {
             ch = 1 + idx % 2;
             let frames = if b.cases > 2000 && idx % 80 == 7 { rng.gen_range(2049..2200) } else { rng.gen_range(129..300) };
